@@ -8,15 +8,15 @@ PROPS = {
                   "(tags x age x referenced x status x type) under the real gcSecondaryENI/gcMemberENI with a call-time monitor on every Detach/Delete",
         rule="(a) TestVerifC11ClosedLoop: C10's history generator with every pod's first interface fixed-IP (TTL >= 5 min or Never); non-trivial as in C10 (recreate / rollback / leave-while-attaching). "
              "(b) TestVerifC11Retention: 1..3 seeded records (phase drawn from all six, 1..3 allocations each Elastic / Fixed TTL / Fixed Never / unset / unknown strategy, releaseAfter valid, unparsable or negative, "
-             "podLastSeen = now - D with D in {0..2 s, TTL - m, TTL + m, 10 x TTL, unset}, m in {3,5,10} s, pod absent / alive / exited / terminating, UID matching or not) and 1..5 actions "
-             "(gcCR with optional API fault, pod gone / exit / delete / recreate); non-trivial = a last-seen age within 30 s of a TTL boundary or >= 2 allocations with different strategies. "
+             "podLastSeen = now - D with D in {0..2 s, TTL - m, TTL + m, 10 x TTL, unset}, m in {3,5,10} s, pod absent / alive / exited / terminating, UID matching or not; only reachable states: a record in Detaching/Deleting never carries the UID of a pod that still exists) and 1..8 actions "
+             "(gcCR with optional API fault, pod gone / exit / delete / recreate, ReconcilePod, ReconcilePodENI), in a third of the cases followed by a script [gcCR (pod observed), pod leaves, reconcilers finish the transition to Unbind, gcCR]; non-trivial = a last-seen age within 30 s of a TTL boundary or >= 2 allocations with different strategies. "
              "(c) TestVerifC11LeakGC: 1..8 interfaces, each starting as reapable (both tags ours, age > 10 min, Secondary/Available or Member/InUse, unreferenced) with 0..2 conditions spoiled "
              "(cluster tag other/absent, creator tag other/absent, age 0 / 30 s / 10 min - m / unparsable, other status, other type, referenced by a seeded record), m in {3,5,20} s, then 1..4 collector passes "
              "(optionally with a cloud or API fault); non-trivial = population with >= 1 reapable and >= 1 protected interface. distinct = distinct scenario hash",
         assumptions=[
             "no clock hook: timestamps are generated relative to the wall clock. Must-keep / must-not-reap assertions are evaluated against the clock read AFTER the step (retention) or AT the monitored cloud call (leak GC): "
             "the code read its clock earlier, so 'lastSeen + TTL > t_after' (resp. 'created + 10 min > t_call') implies the code saw an unexpired TTL (a young interface); a slow machine only widens the undecided window and can never cause a false alarm",
-            "retention reference point = the later of the stored status.podLastSeen (second granularity) and the start of the last fault-free gcCR pass that saw the pod alive",
+            "retention reference point = the later of the stored status.podLastSeen (second granularity) and the start of the last fault-free gcCR pass during which the pod existed alive - taken from the harness own pod table, whatever the record phase (Binding/Detaching records are observed too) and whatever the code stored",
             "a fixed-IP record may be given up only by gcCRPodENIs; in the closed loop TTLs are >= 5 min and a case that ran longer than 2 min is discarded as inconclusive",
             "a record referencing an interface in any phase (including Deleting) counts as a reference; an interface with an unparsable creation time is of unknown age and must not be reaped",
             "a release of a fixed-IP record whose podLastSeen was never set (pod left before the first attach) is accepted (the oracle measures from status.podLastSeen as the property's anchor says); counted under label gc-release:never-seen",
